@@ -386,13 +386,14 @@ CHECK = {
             "same special points and random in (-2pi,2pi), pitch random / at +-(pi/2-1e-3) / near it; random proper rotations with "
             "|R20| <= 1-1e-6 (30% within 1e-1..1.6e-3 rad of gimbal lock); quaternions of norm 1e-3..1e3 (15% with a zero component); "
             "points of norm 1e-6..1e6 incl. on the axes; float and double. Non-trivial = distinct case with a finite result.",
-    "trusted": ["translator translate/srcfuns.py (clang AST of between0And2Pi, betweenMinusPiAndPi, rotation2DToEulerAngle, rotation3DToEulerAngles at double -> Gallina)", "hand-written model coq/AnglesModel.v tied by differential execution (this run)",
+    "trusted": ["translator translate/eigensym.py + tr_C10_eigensym.py: clang JSON AST -> entry-wise symbolic values; its reading of the Eigen operations it accepts (coefficient access, Zero/Identity/Unit*, comma-initialiser block placement, * + - unary -, transpose, col/row/block/head, cross; AngleAxis->Quaternion, quaternion product, normalized, toRotationMatrix transcribed from Eigen 3.4); anything else is refused (fail closed)",
+                "translator translate/srcfuns.py (clang AST of between0And2Pi, betweenMinusPiAndPi, rotation2DToEulerAngle, rotation3DToEulerAngles at double -> Gallina)", "hand-written model coq/AnglesModel.v tied by differential execution (this run)",
                 "rounded dictionary B64Ops of coq/GridMapFloat.v (Flocq FLT(-1074,53), nearest-even) as the meaning of double arithmetic in the *_binary64 theorems; it is not the dictionary executed by the correspondence run (ocaml/numf.ml is)",
                 "extraction (ExtrOcamlBasic), ocaml/numf.ml (f32 = binary64 libm result rounded to binary32), ocaml/drv_C10.ml",
                 "harness/C10.cpp, python/mpmath oracle in checks/C10.py",
                 "Eigen: AngleAxis->Quaternion, quaternion product, normalized(), toRotationMatrix(), 3x3 products (transcribed, compared numerically)"],
     "manifest": {
-        "text": "SYNTACTIC TIE: the angle normalisers and the rotation -> angle extractors are re-translated from the clang AST of the current source (instantiation at double, if/else chains included) on every run (translate/srcfuns.py -> coq/gen/SrcFunsC10.v) and proved equal to the model functions. Coq theorems over the reals about the transcribed formulas: Rz*Ry*Rx is a proper rotation; the quaternion builder, the matrix "
+        "text": "SYNTACTIC TIE: the angle normalisers and the rotation -> angle extractors are re-translated from the clang AST of the current source (instantiation at double, if/else chains included) on every run (translate/srcfuns.py -> coq/gen/SrcFunsC10.v) and proved equal to the model functions; the angle -> rotation builders eulerAngleToRotation2D (comma initialiser), eulerAnglesToQuaternion (AngleAxis(e(2),UnitZ) * AngleAxis(e(1),UnitY) * AngleAxis(e(0),UnitX)), eulerAnglesToRotation3D (Matrix3(quaternion), the call inlined) and quaternionToEulerAngles (normalized().toRotationMatrix() handed to the generated rotation3DToEulerAngles) are regenerated by the symbolic Eigen evaluator (translate/eigensym.py + tr_C10_eigensym.py -> coq/gen/SrcEigenC10.v) and proved equal to the models of AnglesModel.v (coq/SrcTieC10Eigen.v, C10_source_tie_euler_builders) — there Eigen's own AngleAxis->Quaternion / product / toRotationMatrix / normalized formulas are the evaluator's (transcribed from Eigen 3.4), the tie is on how the source composes them; likewise the polar / spherical conversions toPolar(CartesianCoordinates2), toCartesian(PolarCoordinates), toSpherical(CartesianCoordinates3), toCartesian(SphericalCoordinates) of include/romea_core_common/coordinates/*.hpp (template classes with a base class, getters and static member templates, all inlined) equal toPolar / polarToCartesian / toSpherical (inside its guards) / sphericalToCartesian (C10_source_tie_coordinates); SmartRotation3D::R is tied under C12 (C12_source_tie_smart_rotation). Coq theorems over the reals about the transcribed formulas: Rz*Ry*Rx is a proper rotation; the quaternion builder, the matrix "
                 "builder and SmartRotation3D::R are the same matrix; angles->rotation->angles returns the angles modulo 2*pi in [0,2*pi); "
                 "rotation->angles->rotation is the identity for |R20|<1; the normalisers are congruent modulo 2*pi and inside their interval "
                 "for |x|<4*pi; the planar pair and the polar/spherical maps are mutual inverses for r>0. The model is executed (binary64 and "
